@@ -265,14 +265,14 @@ Definition eq_mismatches (vals : list json) (tbl : list (N * N * bool)) : list (
      else [(i, 3%N, j)]) tbl.
 
 (* ---- the three histories that go wrong in the unrepaired code --------------------------- *)
-Definition ms : Z := 1000000.
+Definition msec : Z := 1000000.
 (* the time-to-live is cleared by a later set of the same value *)
 Definition h_clear : list op :=
-  [OSet 1 (Some (JStr 7)) (50 * ms); OSet 1 (Some (JStr 7)) 0; OAdvance (150 * ms)].
+  [OSet 1 (Some (JStr 7)) (50 * msec); OSet 1 (Some (JStr 7)) 0; OAdvance (150 * msec)].
 (* the value is replaced and set back without time-to-live *)
 Definition h_aba : list op :=
-  [OSet 1 (Some (JStr 7)) (50 * ms); OSet 1 (Some (JStr 8)) 0; OSet 1 (Some (JStr 7)) 0; OAdvance (150 * ms)].
+  [OSet 1 (Some (JStr 7)) (50 * msec); OSet 1 (Some (JStr 8)) 0; OSet 1 (Some (JStr 7)) 0; OAdvance (150 * msec)].
 (* the time-to-live is extended while the callback of the first timer is
    already waiting for the mutex *)
 Definition h_late : list op :=
-  [OSet 1 (Some (JStr 7)) (50 * ms); OAdvance (50 * ms - 1); OSet 1 (Some (JStr 7)) (10000 * ms); OFireLate 0; OAdvance (100 * ms)].
+  [OSet 1 (Some (JStr 7)) (50 * msec); OAdvance (50 * msec - 1); OSet 1 (Some (JStr 7)) (10000 * msec); OFireLate 0; OAdvance (100 * msec)].
